@@ -15,3 +15,28 @@ CHECKS = {
         "level_note": _NOTE + "Exhaustive only within the stated bounds (quick: <= 2-3 stream items, <= 1 reaction; thorough adds deeper simulation).",
     },
 }
+
+
+def _sess(mon, what, bounds):
+    return {"technique": _T % mon,
+            "level_text": "TLC checks on the bounded session model (spec/Lomond.tla, alphabets in spec/MC_Sess.tla) that every complete behaviour "
+                          "satisfies the monitor %s (%s); every behaviour of the model is replayed into the real code (simulated world) and "
+                          "each recorded trace is judged by the same monitor evaluated by TLC; the model's predicted observations are compared "
+                          "with the recorded ones (model validity, informational)." % (mon, what),
+            "level_note": _NOTE + bounds}
+
+
+CHECKS.update({
+    "C01": _sess("Mon_C01", "message events = reference reassembly (spec/Reasm.tla) of the delivered frames, once, in order, byte-exact, payload stable after the yield",
+                 "Conforming-server automaton, <= 3 (quick) / 4 (thorough) frames after the handshake, x 3 read segmentations."),
+    "C04": _sess("Mon_C04", "first RFC 6455 violation found by the reference interpreter => prefix delivered, exactly one ProtocolError, nothing after, non-graceful Disconnected, at most one Close frame written",
+                 "45 violating frames over all classes of the statement among 4 valid frames, sequences of <= 2 (quick) / 3 frames, also while the closing handshake is in progress; x 3 read segmentations. Frames after the server's own Close frame are not judged (RFC leaves it open)."),
+    "C08": _sess("Mon_C08", "closing-handshake clauses of the statement in both directions",
+                 "<= 3 (quick) / 4 server frames, <= 2 / 3 application reactions (send/close) at any event incl. Connecting/Connected/Closing; fault-free transport."),
+    "C09": _sess("Mon_C09", "no escape, no hang, ConnectFail iff before Connected, non-graceful unless a closing handshake had started, all addresses tried, sockets closed, only WebSocketError from sends",
+                 "fault choice at every interaction point of the bounded model; terminal fault moved to every byte offset for a subset of base streams (6 quick / 40 thorough). A failed selector keeps failing."),
+    "C13": _sess("Mon_C13", "after abandonment every socket and selector is closed",
+                 "abandonment at every event index of every bounded behaviour x 4 mechanisms; selector closure observed through a logging subclass of lomond's selector class."),
+    "C14": _sess("Mon_C14", "pongs = answerable pings (payload, order, multiplicity), each written before its Ping event; none with auto_pong off; failing pong writes do not disturb the event stream (twin run)",
+                 "<= 3 (quick) / 4 frames incl. 125-byte all-byte-values ping blobs, several items per read, application send/close reactions, failing writes."),
+})
